@@ -180,6 +180,10 @@ def x_tw(p):
         n_arg = float(n) + 0.5
     elif ncls == "intfloat":
         n_arg = float(n)
+    elif ncls == "np8":
+        n_arg = np.int8(n)
+    elif ncls == "npu8":
+        n_arg = np.uint8(n)
     else:
         n_arg = n
     res, exc = [], None
